@@ -68,6 +68,18 @@ def templates():
         T["aug-attr-" + n] = ["p(1, box('A')).a %s= p(2, V(2))" % op]
         T["aug-sub-" + n] = ["p(1, box('A'))[p(2, 0)] %s= p(3, V(2))" % op]
         T["aug-slice-" + n] = ["p(1, box('A'))[p(2, 0):p(3, 2)] %s= p(4, V(2))" % op]
+    # every slice bound absent / literal / probed, for augmented stores, plain stores and loads
+    k = 1
+    for lo in "alp":
+        for up in "alp":
+            for st in "alp":
+                ids = iter(range(2, 9))
+                part = lambda c, lit: "" if c == "a" else (lit if c == "l" else "p(%d, %s)" % (next(ids), lit))
+                sl = "%s:%s" % (part(lo, "0"), part(up, "2")) + ("" if st == "a" else ":" + part(st, "1"))
+                T["aug-slice-mix-%s%s%s" % (lo, up, st)] = ["p(1, box('A'))[%s] += p(9, V(2))" % sl]
+                T["assign-slice-mix-%s%s%s" % (lo, up, st)] = ["p(1, box('A'))[%s] = p(9, [7])" % sl]
+                T["aug-slice-in-tuple-mix-%s%s%s" % (lo, up, st)] = ["p(1, box('A'))[%s, p(10, 5)] -= p(9, V(2))" % sl]
+    T["aug-literal-index"] = ["p(1, box('A'))[0] += p(2, V(2))", "p(3, box('B'))['k', 1] *= p(4, V(3))", "p(5, box('C'))[-1] //= p(6, V(4))"]
     T["aug-tuple-index"] = ["p(1, box('A'))[p(2, 0), p(3, 1)] += p(4, V(2))"]
     T["aug-slice-in-tuple"] = ["p(1, box('A'))[p(2, 0):p(3, 1), p(4, 2)] += p(5, V(2))"]
     T["aug-step-slice"] = ["p(1, box('A'))[p(2, 0)::p(3, 2)] *= p(4, V(2))"]
